@@ -677,12 +677,12 @@ def gen_cases(tier):
     cases = [dec(c, m) for c, m in corpus()]
     ncorpus = len(cases)
     if tier == 'quick':
-        cases += list(exhaustive_cases(3))
-        cases += [random_case(rnd, 14) for _ in range(5500)]
-        cases += [random_case(rnd, 14, adv=False) for _ in range(1500)]
-        cases += [random_case(rnd, 10, adv=True) for _ in range(150)]
-        cases += [random_case(rnd, 30) for _ in range(800)]
-        cases += [mismatch_case(rnd, 10) for _ in range(500)]
+        cases += list(exhaustive_cases(3, menu_limit=18))
+        cases += [random_case(rnd, 14) for _ in range(4000)]
+        cases += [random_case(rnd, 14, adv=False) for _ in range(1200)]
+        cases += [random_case(rnd, 10, adv=True) for _ in range(120)]
+        cases += [random_case(rnd, 30) for _ in range(500)]
+        cases += [mismatch_case(rnd, 10) for _ in range(400)]
     else:
         cases += list(exhaustive_cases(3))
         cases += list(exhaustive_cases(4, menu_limit=13))
@@ -1145,7 +1145,7 @@ DDL_CORPUS = [
 def gen_ddl(tier):
     rnd = lib.rng('C04ddl')
     hs = [list(h) for h in DDL_CORPUS]
-    n = 120 if tier == 'quick' else 3600
+    n = 96 if tier == 'quick' else 3600
     for j in range(n):
         style = 'kf' if j % 12 == 11 else ('adv' if j % 12 in (1, 3, 5, 7, 9) else 'plain')
         hs.append(ddl_history(rnd, 13 if tier == 'quick' else 15, style))
@@ -1444,7 +1444,7 @@ def run(tier):
     if model is not None:
         rnd = lib.rng('C04coq')
         pool = [i for i in in_model if len(cases[i][2]) <= 12]
-        idx = sorted(rnd.sample(pool, min(60 if not thorough else 400, len(pool))))
+        idx = sorted(rnd.sample(pool, min(40 if not thorough else 400, len(pool))))
         raw_lines = [lines[i][0] + 'R' + lines[i][1:] for i in idx]
         raw = lib.run_model(exe, raw_lines)
         outs = lib.coq_eval('C04', 'From Coq Require Import List NArith. Import ListNotations.\n'
@@ -1593,23 +1593,30 @@ def run(tier):
         for cc in set(classes_in(c[2])):
             nm = d['classes'][cc]['name']
             classes_used[nm] = classes_used.get(nm, 0) + 1
-    nexh = 24 ** 3 + (13 ** 4 if thorough else 0)
+    nexh = (24 ** 3 + 13 ** 4) if thorough else 18 ** 3
     rep.coverage.update({
         'evaluations': len(cases),
         'distinct_nontrivial': len(distinct),
         'rule': 'raw-API histories over the real schema classes: corpus; ALL sequences of '
-                f'{3 if thorough else 2} ops from a fixed menu of 24 ops (ids 1-5, Module/ObjectType/Function) '
+                + ('3 ops from a fixed menu of 24 ops and ALL sequences of 4 ops from its first 13 ops' if thorough
+                   else '3 ops from the first 18 ops of a fixed menu of 24 ops')
+                + ' (ids 1-5, Module/ObjectType/Function) '
                 'after "add module m0"; seeded random valid-biased histories (2-4 of 26 common classes + '
                 'sometimes any of the 64 registered classes; ids from a pool of <= 8; names from a pool of 15 '
-                'strings with colliding short names; 5-30% deliberately invalid choices: duplicate ids/names, '
+                'strings with colliding short names, and in ~20% of the cases function-like full names generated '
+                'from adversarial identifiers (| || @ & : back-quote keywords non-ASCII long) whose specialized name '
+                'and short name are computed by the REAL name.py functions for exactly those names and whose '
+                'intended short name is checked (a few of them inside the input predicate of C04-KF1); '
+                '5-30% deliberately invalid choices: duplicate ids/names, '
                 'unknown modules, absent objects, update_obj upserts, None/ill-kinded values for reference '
                 'fields, unknown fields, delist of unlisted names); 15% of them through a ChainedSchema over a '
                 'small base schema; plus an out-of-model stream with mismatched handle classes (monitors '
                 'only). non-trivial = >= 3 accepted ops and >= 1 rejected op and an accepted '
                 'delete/discard/unset/delist/set/update; distinct = distinct encoded case line',
         'exhaustive': False,
-        'exhaustive_subspaces': ['all 13824 sequences of 3 ops from the 24-op menu']
-                                + (['all 28561 sequences of 4 ops from the first 13 menu ops'] if thorough else []),
+        'exhaustive_subspaces': (['all 13824 sequences of 3 ops from the 24-op menu',
+                                  'all 28561 sequences of 4 ops from the first 13 menu ops'] if thorough else
+                                 ['all 5832 sequences of 3 ops from the first 18 ops of the 24-op menu']),
         'samples': [lines[i] for i in (ncorpus, ncorpus + nexh + 1, len(lines) // 2, len(lines) - 600)
                     if 0 <= i < len(lines)],
         'traces_validated_against_impl': len(in_model) if model is not None else 0,
